@@ -3,9 +3,12 @@ package main
 import (
 	"bytes"
 	"compress/flate"
+	"encoding/xml"
 	"io"
 )
 
 func inflate(b []byte) ([]byte, error) {
 	return io.ReadAll(flate.NewReader(bytes.NewReader(b)))
 }
+
+func xmlUnmarshal(b []byte, v interface{}) error { return xml.Unmarshal(b, v) }
